@@ -129,3 +129,10 @@ V("C47-silent-order-test-first","C47",SH+"gc.go","""		if ne.epoch >= uint64(unpa
 			continue
 		}
 		if delay := ne.epoch - uint64(unpaidSince); delay >= maxUnpaidEpochDelay {""",expect="silent")
+
+TM="pkg/timers/timer.go"
+V("C40-delta-done-not-set","C40",TM,"			dh.tick()\n			dh.done = true","			dh.tick()",rule="C40.R2")
+V("C40-epoch-no-due-test","C40",TM,"	if et.nextTickAt <= curr {\n		for _, h := range et.eHandlers {","	if et.nextTickAt <= curr || len(et.deltaHandlers) == 0 {\n		for _, h := range et.eHandlers {",rule="C40.R1")
+V("C40-update-clears-done","C40",TM,"	if et.done {\n		return\n	}","	if et.done {\n		et.done = curr < et.nextTickAt\n		return\n	}",rule="C40.R3")
+V("C40-early-return-after-epoch","C40",TM,"		et.done = true\n	}\n	for _, dh := range et.deltaHandlers {","		et.done = true\n		return\n	}\n	for _, dh := range et.deltaHandlers {",rule="C40.R5")
+V("C40-silent-refactor","C40",TM,"		if !dh.done && dh.nextTickAt <= curr {\n			dh.tick()\n			dh.done = true\n		}","		if dh.done || dh.nextTickAt > curr {\n			continue\n		}\n		dh.tick()\n		dh.done = true",expect="silent")
